@@ -118,9 +118,14 @@ def build_contracts(mod, prop, tier, seed):
         c.log = {}
         from hwv import extract as _ex
         _ex.REFERENCE_REGS = dict(baseline.get(c.name, {}).get("__regs__", {}))
+        _ex.REFERENCE_MODS = dict(baseline.get(c.name, {}).get("__mods__", {}))
         _ex.REFERENCE_PORTS = dict(baseline.get(c.name, {}).get("__ports__", {}))
         try:
             fn(c)
+            for u in c.units:
+                for p_, (v_, ref_) in u.widened.items():
+                    c.invs.append((f"widened:{p_}_upper_bits_zero", z3.Extract(v_.size() - 1, ref_, v_) == 0))
+                    c.degraded.append(f"register {p_} is {v_.size()} bits wide, {ref_} on the reference tree (read through its low bits)")
             houdini(c, c.log)
             c._obs = c.obligations()
         except BindingError as e:
@@ -144,6 +149,7 @@ def build_contracts(mod, prop, tier, seed):
             for rb in u.rebound:
                 c.degraded.append("followed a rename: " + rb)
         probes["__regs__"] = regs
+        probes["__mods__"] = {u.prefix + m_: k_ for u in c.units for m_, k_ in u.module_classes().items()}
         probes["__ports__"] = {u.prefix + n: v.size() for u in c.units for d_ in (u.inputs, u.outputs)
                                for n, v in d_.items() if z3.is_bv(v)}
         for u in c.units:
@@ -152,7 +158,7 @@ def build_contracts(mod, prop, tier, seed):
                     c.log.setdefault("narrowed_ports", []).append(f"{u.prefix}{n}: {r_} -> {w_} bits (read zero-extended)")
         record[c.name] = probes
         for name, ok in probes.items():
-            if name not in ("__regs__", "__ports__") and not ok and baseline.get(c.name, {}).get(name) is True:
+            if name not in ("__regs__", "__ports__", "__mods__") and not ok and baseline.get(c.name, {}).get(name) is True:
                 c.degraded.append(f"optional name {name} resolved on the reference tree but not on this one")
         ctxs.append(c)
     if os.environ.get("HWV_RECORD_PROBES") and not os.environ.get("HWV_REPO"):
